@@ -4,6 +4,7 @@ set -e
 cd "$(dirname "$0")"
 command -v java >/dev/null
 test -f /opt/veriftools/tla/tla2tools.jar
+command -v apalache-mc >/dev/null   # stage A of C17 (spec/Apa_Sweep.tla)
 /venv/bin/python -c "import sys; sys.path.insert(0,'/repo/src'); import peptacular, regex"
 mkdir -p evidence .work
 fail=0
